@@ -128,6 +128,29 @@ def _live(ctx, binary, opts):
     return rs
 
 
+def _expect_temporal_violation(ctx, cfg, timeout=3600):
+    """Run TLC on an implementation variant whose liveness must fail (lib/vlib.parse_tlc does not recognise
+    'Temporal property X was violated', so the run is made here)."""
+    import time
+    d = ctx.stage()
+    args = ['-workers', '4', '-metadir', os.path.join(d, 'md-anti'), '-config', cfg, '-noGenerateSpecTE', 'Queue_MC']
+    t0 = time.time()
+    with vlib._Slot():
+        rc, out = vlib.sh(vlib._tlc_cmd(args, heap='8g'), cwd=d, timeout=timeout)
+    if rc == 124:
+        raise vlib.Broken('TLC timeout on Queue_MC/%s' % cfg)
+    m = re.search(r'Error: Temporal property (\S+) was violated', out)
+    res = vlib.parse_tlc(out)
+    vlib.log('[tlc-mc] Queue_MC/%s: %d generated, %d distinct, %.1fs, %s' % (cfg, res['generated'], res['distinct'], time.time() - t0,
+             ('expected VIOLATION ' + m.group(1)) if m else 'no violation'))
+    ctx.checker_cmds.append('tlc -workers 4 -config %s Queue_MC  (expected liveness violation)' % cfg)
+    if not m or m.group(1) != 'ClosedCallsReturn':
+        raise vlib.Broken('anti-vacuity: %s (implementation variant without the repair) must violate ClosedCallsReturn:\n%s' % (cfg, out[-1500:]))
+    ctx.mc_runs.append(dict(module='Queue_MC', cfg=cfg, generated=res['generated'], distinct=res['distinct'], depth=res['depth'],
+                            wall_s=round(time.time() - t0, 1), violation=m.group(1)))
+    return m.group(1)
+
+
 def _echo_mutation(ev):
     if ev.get('ev') == 'WaitE' and ev.get('ret') == 'reply':
         ev['echo'] = ev['echo'] + 1
@@ -242,10 +265,7 @@ def run(ctx):
         raise vlib.Broken('anti-vacuity: a contract-breaking FreeMessage must violate ReplyToOwnRequest in the model, got %s' % r['violation'])
     if not q:
         for cfg in ('Queue_LivePreLow.cfg', 'Queue_LivePreSweep.cfg'):
-            r = ctx.tlc_mc('Queue_MC', cfg, workers=4, timeout=3600, expect_violation=True, count=False)
-            anti[cfg] = r['violation']
-            if not r['violation']:
-                raise vlib.Broken('anti-vacuity: %s (implementation variant without the repair) must violate ClosedCallsReturn' % cfg)
+            anti[cfg] = _expect_temporal_violation(ctx, cfg)
     ctx.extra['model_anti_vacuity'] = anti
     # 2. the real code
     b = vlib.build(DRIVER)
